@@ -36,6 +36,8 @@ class Engine(Core, ExprMixin, CallMixin, StmtMixin):
         self._keep_alive = []
         self.assuming_post = 0
         self.rec_limit = 2
+        self.bounded_only_clauses = []
+        self.bounded_clauses_assumed = set()
 
     # read_field with the type invariant len >= 0
     def read_field(self, st, obj, attr, node=None, heap=None):
@@ -129,6 +131,10 @@ class Engine(Core, ExprMixin, CallMixin, StmtMixin):
             rv_spec = self.eval_spec_val(c.result_is, env, exit_st, old_heap=self.fn_old_heap, old_env=env)
             self.oblige("post", "result-is", self.val_eq(env2["result"], rv_spec), exit_st, fn, info={"clause": "result == " + c.result_is})
         for label, e in c.ensures_labeled:
+            if label.startswith("bounded:") and self.mode != "UNROLL":
+                # clause decided only by the bounded stand-in (UNROLL); not part of the unbounded proof
+                self.bounded_only_clauses.append("%s/%s" % (qual, label))
+                continue
             g = self.eval_spec(e, env2, exit_st, old_heap=self.fn_old_heap, old_env=env)
             self.oblige_split("post", label, g, exit_st, fn, info={"clause": e})
         # ---- frame
